@@ -1,6 +1,7 @@
 mod posgen;
 mod proj;
 mod chain;
+mod misc;
 mod notation;
 mod query;
 mod session;
@@ -117,6 +118,34 @@ fn regen(prop: &str, input: &Path, out: &Path) {
     let rep: Value = serde_json::from_str(&std::fs::read_to_string(input).unwrap()).unwrap();
     let mut sink = Sink::new(out, 100000);
     let ev = &rep["event"];
+    if !rep["crash"].is_null() {
+        // an input on which the process died: hand it to the library again (dying again = still failing)
+        let c = &rep["crash"];
+        let b = c["fen"].as_str().and_then(|f| owlchess::Board::from_fen(f).ok()).unwrap_or_else(owlchess::Board::initial);
+        sink.begin(c);
+        if let (Some(w), Some(t)) = (c["what"].as_str(), c["text"].as_str()) {
+            sink.emit(&notation::parse_event(w, t, &b));
+        } else if let Some(t) = c["san"].as_str() {
+            let mut e = notation::parse_event("from_san", t, &b);
+            e["pos"] = proj::raw_json(b.raw());
+            sink.emit(&e);
+        } else if let Some(t) = c["text"].as_str() {
+            for w in notation::PARSERS.iter() {
+                sink.emit(&notation::parse_event(w, t, &b));
+            }
+        } else {
+            let ctx = query::Ctx::new();
+            for p in ["C01", "C03", "C06", "C07", "C16"] {
+                sink.emit(&query_one(&ctx, &b, p));
+            }
+            let mut rng = StdRng::seed_from_u64(1);
+            sink.emit(&notation::san_event(&mut rng, &b));
+            sink.emit(&notation::uci_event(&b));
+            sink.emit(&misc::cap_event(&b));
+        }
+        sink.finish();
+        return;
+    }
     match ev["ev"].as_str() {
         Some("q") => {
             let raw = proj::raw_from_json(&ev["pos"]);
@@ -300,6 +329,121 @@ fn gen_notation(prop: &str, n: usize, rng: &mut StdRng, sink: &mut Sink) {
     }
 }
 
+fn gen_misc(prop: &str, n: usize, rng: &mut StdRng, sink: &mut Sink) {
+    use rand::Rng;
+    match prop {
+        "C11" => {
+            let valid = posgen::mixed(rng, (n / 8).max(120));
+            for b in valid.iter() {
+                sink.emit(&misc::rawval_event(b.raw()));
+            }
+            for r in misc::raw_stream(rng, &valid, n) {
+                sink.begin(&json!({"prop": prop, "rawfen": r.as_fen(), "ep": r.ep_source.map(|c| c.index())}));
+                sink.emit(&misc::rawval_event(&r));
+            }
+            // every e.p. mark on every square x both sides, all 16 rights sets, on two skeletons
+            for fen in ["4k3/8/8/pPpPpPpP/PpPpPpPp/8/8/4K3 w - - 0 1", "r3k2r/8/8/8/8/8/8/R3K2R w - - 0 1"] {
+                let base = owlchess::RawBoard::from_fen(fen).unwrap();
+                for side in [owlchess::Color::White, owlchess::Color::Black] {
+                    for ep in 0..64 {
+                        let mut r = base;
+                        r.side = side;
+                        r.ep_source = Some(owlchess::Coord::from_index(ep));
+                        sink.emit(&misc::rawval_event(&r));
+                    }
+                    for cr in 0..16 {
+                        let mut r = base;
+                        r.side = side;
+                        r.castling = owlchess::CastlingRights::from_index(cr);
+                        sink.emit(&misc::rawval_event(&r));
+                    }
+                }
+            }
+        }
+        "C15" => {
+            // n = number of squares enumerated completely (64 = everything)
+            sink.emit(&misc::leaper_event());
+            for s in 0..64 {
+                sink.emit(&misc::between_event(s));
+            }
+            let mut order: Vec<usize> = (0..64).collect();
+            use rand::seq::SliceRandom;
+            order.shuffle(rng);
+            for (i, sq) in order.iter().enumerate() {
+                let complete = i < n;
+                for rook in [true, false] {
+                    sink.begin(&json!({"prop": prop, "sq": sq, "rook": rook}));
+                    for ev in misc::magic_events(rng, *sq, rook, complete, 256) {
+                        sink.emit(&ev);
+                    }
+                }
+            }
+        }
+        "C18" => {
+            for b in posgen::mixed(rng, n).iter() {
+                sink.begin(&json!({"prop": prop, "fen": b.as_fen()}));
+                for ev in misc::sym_events(b) {
+                    sink.emit(&ev);
+                }
+            }
+        }
+        "C19" => {
+            let pos = posgen::mixed(rng, n);
+            for b in pos.iter() {
+                sink.begin(&json!({"prop": prop, "fen": b.as_fen()}));
+                sink.emit(&misc::cap_event(b));
+            }
+            // maximal-mobility search: climb from corpus maximisers and from all-queen placements
+            let iters: usize = std::env::var("HARNESS_CLIMB").ok().and_then(|s| s.parse().ok()).unwrap_or(3000);
+            let mut starts: Vec<owlchess::Board> = pos.iter().take(6).cloned().collect();
+            for f in ["3Q4/1Q4Q1/4Q3/2Q4R/Q4Q2/3Q4/NR4Q1/kN1BB1K1 w - - 0 1", "R6R/3Q4/1Q4Q1/4Q3/2Q4Q/Q4Q2/pp1Q4/kBNN1KB1 w - - 0 1"] {
+                starts.push(owlchess::Board::from_fen(f).unwrap());
+            }
+            let mut best = 0;
+            for st in starts.iter() {
+                let b = misc::climb(rng, st, iters);
+                best = best.max(misc::semi_count(&b));
+                sink.begin(&json!({"prop": prop, "climbed": b.as_fen()}));
+                let mut ev = misc::cap_event(&b);
+                ev["climbed"] = json!(true);
+                sink.emit(&ev);
+                // neighbours of the maximiser
+                for _ in 0..20 {
+                    let nb = posgen::mutate(rng, &b);
+                    sink.begin(&json!({"prop": prop, "fen": nb.as_fen()}));
+                    sink.emit(&misc::cap_event(&nb));
+                }
+            }
+            println!("CLIMB best_semilegal={}", best);
+            // boundary inputs of every index computation reachable from text: pawn SAN to every square
+            let files = "abcdefgh";
+            for b in pos.iter().take(12) {
+                for f in files.chars() {
+                    for r in 1..=8 {
+                        for t in [format!("{f}{r}"), format!("{f}{r}=Q"), format!("{}x{f}{r}", files.chars().nth(rng.gen_range(0..8)).unwrap())] {
+                            sink.begin(&json!({"prop": prop, "san": t, "fen": b.as_fen()}));
+                            let mut ev = notation::parse_event("from_san", &t, b);
+                            ev["pos"] = proj::raw_json(b.raw());
+                            sink.emit(&ev);
+                        }
+                    }
+                }
+            }
+        }
+        "C20" => {
+            for ev in misc::type_events() {
+                sink.emit(&ev);
+            }
+            sink.emit(&misc::consts_event());
+            sink.emit(&misc::geometry_event());
+            for ev in misc::bitboard_events(rng) {
+                sink.emit(&ev);
+            }
+        }
+        _ => unreachable!(),
+    }
+}
+
 /// Positions enumerated by TLC (spec/MC_Families.tla) replayed into the real code: one event per position.
 fn gen_from(prop: &str, posfile: &Path, out: &Path, cap: usize) {
     let ctx = query::Ctx::new();
@@ -388,6 +532,12 @@ fn main() {
                     let mut rng = StdRng::seed_from_u64(seed);
                     let mut sink = Sink::new(&out, cap);
                     gen_notation(prop, n, &mut rng, &mut sink);
+                    println!("GEN prop={} events={}", prop, sink.finish());
+                }
+                "C11" | "C15" | "C18" | "C19" | "C20" => {
+                    let mut rng = StdRng::seed_from_u64(seed);
+                    let mut sink = Sink::new(&out, cap);
+                    gen_misc(prop, n, &mut rng, &mut sink);
                     println!("GEN prop={} events={}", prop, sink.finish());
                 }
                 "C04" | "C05" => {
